@@ -61,11 +61,16 @@ POSITIONS = [
     ("pragma", "#pragma omp {E}\nint after;", lambda d: vals(d.pragmas[0].content)[1:], ([], [])),
     ("requires-paren", "template <typename X> requires ({E}) void rf(); int after;", lambda d: vals(d.namespace.functions[0].template.raw_requires_pre), (["("], [")"])),
     ("fnptr-param-default", "void f(void (*cb)(int) = {E}, int z = 0); int after;", lambda d: vals(d.namespace.functions[0].parameters[0].default), ([], [])),
+    ("template-arg-bare", "T<{E}, int> v; int after;", lambda d: vals(d.namespace.variables[0].type.typename.segments[0].specialization.args[0].arg), ([], [])),
+    ("template-arg-bare-last", "T<int, {E}> v; int after;", lambda d: vals(d.namespace.variables[0].type.typename.segments[0].specialization.args[1].arg), ([], [])),
     ("requires-leading", "template <typename X> requires {E} void rf(); int after;", lambda d: vals(d.namespace.functions[0].template.raw_requires_pre), ([], [])),
     ("requires-trailing", "template <typename X> void rf(X) requires {E}; int after;", lambda d: vals(d.namespace.functions[0].raw_requires), ([], [])),
     ("requires-method", "struct S {{ template <typename X> void rf(X) const requires {E} {{ }} int aft; }}; int after;", lambda d: vals(d.namespace.classes[0].methods[0].raw_requires), ([], [])),
 ]
 REQ_POSITIONS = ("requires-leading", "requires-trailing", "requires-method")
+# un-parenthesised non-type template arguments (the parser first tries them as a type)
+TA_EXPRS = ["kHeader + sizeof...(Ts)", "N + sizeof...(Ts) * 2", "1 + 2", "a + b", "sizeof(int)", "a[1]", "-a", "1'000", "a * b - 3", "a == b", "x::y + 1", "sizeof...(Ts)",
+            "1 + sizeof...(Ts)", "a ? b : c", "nullptr", "static_cast<int>(a)", "a->b", "!a"]
 # un-parenthesised requires-clauses: constraint-logical-or-expressions over primary expressions
 REQ_EXPRS = ["Cq<X>", "decltype(p<X>(0))", "Cq<X> && Dq<X>", "(a < b) || Cq<X>", "decltype(f(1))::value", "requires (X t) { t; }", "true", "ns::Cq<X, int>",
              "Cq<X> || (sizeof(X) > 4)", "(Cq<X>)", "(a) && (b)", "Cq<X> && (a || b) && Dq<X>", "::ns::inner::Cq<X>", "Cq<decltype(a)>"]
@@ -79,7 +84,8 @@ EXPRS = [
     "a[b[0]]", "a < b", "a > b", "a < b && c > d", "a <= b", "a >= b", "a >> 2", "a <=> b", "a < (b > c)", "f(a < b, c)", "f(a > b)", "v[a < b]",
     "T<1> {}", "T<(1 > 2)>::q", "operator+", "this->x", "typename X::template Y<Z>::type(1)", "a = b", "a += 1", "1 + (2 * (3 - (4 / 5)))",
     "1u + 2l + 3ul + 4lu + 5ll + 6ull + 7llu + 8LL + 9ULL + 10uLL + 11LLU + 12Ul + 13lU + 0x1fuL", '0_V + 017_perm + 1_V + 0x0_V + 0b0_V + 0.5_V + 0x1p1_V + \'c\'_V + u8\'c\'_V + "s"_V + L"s"_V', "0xDE'AD'BEEF", "0x1'0000'0000ull + 0b1'01 + 0'17",
-] + REQ_EXPRS
+] + REQ_EXPRS + TA_EXPRS
+EXPRS = list(dict.fromkeys(EXPRS))  # each expression once, order kept
 # token texts written down by hand where the expression exists to pin the lexing of one literal (everything else: lexed alone)
 EXPECT_TOKENS = {'0_V + 017_perm + 1_V + 0x0_V + 0b0_V + 0.5_V + 0x1p1_V + \'c\'_V + u8\'c\'_V + "s"_V + L"s"_V': '0_V + 017_perm + 1_V + 0x0_V + 0b0_V + 0.5_V + 0x1p1_V + \'c\'_V + u8\'c\'_V + "s"_V + L"s"_V'.split(),
                  "1u + 2l + 3ul + 4lu + 5ll + 6ull + 7llu + 8LL + 9ULL + 10uLL + 11LLU + 12Ul + 13lU + 0x1fuL":
@@ -92,6 +98,8 @@ def applicable(pos, expr, toks):
     depth0 = depth0_tokens(toks)
     if name in REQ_POSITIONS:
         return expr in REQ_EXPRS
+    if name.startswith("template-arg-bare"):
+        return expr in TA_EXPRS
     if name in ("initializer", "second-declarator-init", "default-arg", "last-default-arg", "enumerator", "last-enumerator", "template-param-default",
                 "field-default", "fnptr-param-default") and "," in depth0:
         return False  # a top-level comma ends the declarator / parameter / enumerator in C++ too
